@@ -9,6 +9,7 @@
   Core Lean only (this file is linked into the driver).
 -/
 import UxVerif.Model.Basic
+import UxVerif.Model.Readers
 import UxVerif.Gen.Conventions
 
 namespace UxVerif.Encode
@@ -95,6 +96,9 @@ structure Ds (P : Type) where
   extras : List Var
   /-- `.encoding` of the grid's variables (file-sourced grids) -/
   encoding : Encodings := []
+  /-- the VALUE of the `start_index` attribute `face_node_connectivity` carries on the grid (`none`: the
+      variable has no such attribute — a grid read from a source that declared none) -/
+  fnStart : Option Int := some 0
 
 /-- `node_lon`, `node_lat` as the conventions describe them -/
 def lonlatVars : List Var :=
@@ -153,6 +157,8 @@ structure UgridOut (P : Type) where
   topo : Topo
   /-- `.encoding` of the exported variables -/
   encoding : Encodings := []
+  /-- the `start_index` attribute of the exported `face_node_connectivity` (attributes are copied) -/
+  fnStart : Option Int := some 0
 
 /-- encoding keys that `to_netcdf` (CF encoding) writes as ATTRIBUTES of the variable: a key that is
     already among the attributes is refused (`ValueError: Key … already exists in attrs`) -/
@@ -183,7 +189,8 @@ def encodeUgrid {P} (cfg : Cfg) (tmpl : Topo) (d : Ds P) : UgridOut P × Topo :=
   ({ table := d.table, nodes := d.nodes,
      vars := outVars,
      topo := topo,
-     encoding := exportEncoding cfg outVars d.encoding },
+     encoding := exportEncoding cfg outVars d.encoding,
+     fnStart := d.fnStart },
    if cfg.copyTemplate then tmpl else topo)
 
 /-- attribute keys of the topology variable whose value is not a list of names -/
@@ -242,6 +249,43 @@ def standardizeFalsy (start : Option Int) (t : Table) : Table :=
 def startOf (v : Var) : Option Int :=
   if v.attrs.any (fun a => a.1 == "start_index") then some 0 else none
 
+/-! ### what the reader leaves on the grid: the standardized table AND the attributes describing it -/
+
+/-- a connectivity variable of `Grid._ds` after `_standardize_connectivity` -/
+structure StdVar where
+  table : Table
+  /-- the `start_index` attribute (`none`: absent) -/
+  startAttr : Option Int
+  /-- the `_FillValue` attribute -/
+  fillAttr : Option Int
+deriving Repr, DecidableEq
+
+/-- how `_standardize_connectivity` leaves the `start_index` attribute:
+    `reset` — the tree: `if "start_index" in attrs: attrs["start_index"] = 0`;
+    `setdefault` — `attrs.setdefault("start_index", 0)`: a declared value survives -/
+inductive StartReset | reset | setdefault
+deriving Repr, DecidableEq
+
+/-- `_standardize_connectivity` on any UGRID source variable (values: C01's reader model) -/
+def standardizeVar (mode : StartReset) (s : Readers.USource) : Except String StdVar :=
+  match Readers.decodeUgrid s with
+  | .error e => .error e
+  | .ok t => .ok
+    { table := t
+      fillAttr := some FILL
+      startAttr := match mode, s.startAttr with
+        | .reset, some _ => some 0
+        | .reset, none => none
+        | .setdefault, some a => some a
+        | .setdefault, none => some 0 }
+
+/-- **the attributes describe the stored values**: the fill attribute is the fill in the table, and
+    reading the table under its own `start_index` attribute changes nothing -/
+def StdVar.consistent (v : StdVar) : Prop :=
+  v.fillAttr = some FILL ∧ standardize v.startAttr v.table = v.table
+
+instance (v : StdVar) : Decidable v.consistent := by unfold StdVar.consistent; infer_instance
+
 /-- `_read_ugrid` on an export: `none` when it raises.  The payload is found through the names the
     topology gives for the node coordinates and for `face_node_connectivity`; the table is
     standardised with the `start_index` attribute of the exported variable. -/
@@ -251,7 +295,7 @@ def decodeUgrid {P} (o : UgridOut P) : Option (Table × List P) :=
       && lookupKey o.topo "face_node_connectivity" == some ["face_node_connectivity"]
   then
     match o.vars.find? (fun v => v.name == "face_node_connectivity") with
-    | some v => some (standardize (startOf v) o.table, o.nodes)
+    | some _ => some (standardize o.fnStart o.table, o.nodes)
     | none => none
   else none
 
